@@ -448,3 +448,130 @@ if __name__ == '__main__':
     print('paired', ev, conv, len(fails), json.dumps(hist))
     for f in fails[:3]:
         print(f['why'], json.dumps(f['spec'], default=str)[:600])
+
+
+# ------------------------------------------------------------------------------- error functions in the style users write them
+# The accessors position / orientation / to_array() / to_compact() / to_matrix() / copy() hand out NEW arrays; user code is free to compute in
+# place on what they return (d = p.position; d -= q.position).  The numerical Jacobians of such edges are held to the same standard.
+class _UserEdge(BaseEdge):
+    def is_valid(self):
+        return True
+
+
+class RangeInPlace(_UserEdge):
+    """| position_1 - position_0 | - z, computed in place on the array returned by .position"""
+
+    def calc_error(self):
+        d = self.vertices[1].pose.position
+        d -= self.vertices[0].pose.position
+        return np.array([math.sqrt(float(d @ d)) - float(self.estimate)])
+
+
+class MidpointInPlace(_UserEdge):
+    """position_1 - (position_0 + position_2) / 2 - z, accumulated in place"""
+
+    def calc_error(self):
+        m = self.vertices[0].pose.position
+        m += self.vertices[2].pose.position
+        m *= 0.5
+        r = self.vertices[1].pose.position
+        r -= m
+        r -= np.asarray(self.estimate)
+        return r
+
+
+class ArrayPriorInPlace(_UserEdge):
+    """to_array() of the pose minus a prior, in place on the returned array (position part only, so that it is smooth for every pose type)"""
+
+    def calc_error(self):
+        a = self.vertices[0].pose.to_array()
+        n = len(self.vertices[0].pose.position)
+        a[:n] -= np.asarray(self.estimate)
+        a[:n] *= 2.0
+        return a[:n]
+
+
+class CopyShiftInPlace(_UserEdge):
+    """distance between two poses after shifting a copy() of the first in place"""
+
+    def calc_error(self):
+        c = self.vertices[0].pose.copy()
+        n = len(c.position)
+        np.ndarray.__setitem__(c, slice(0, n), np.asarray(c)[:n] + np.asarray(self.estimate))
+        d = c.position - self.vertices[1].pose.position
+        return np.array([float(d @ d)])
+
+
+def _positions_fn(name, z):
+    """the same errors as pure functions of the vertices' POSITIONS (lists of floats)"""
+    if name == 'RangeInPlace':
+        return lambda P: [math.sqrt(sum((a - b) ** 2 for a, b in zip(P[1], P[0]))) - z]
+    if name == 'MidpointInPlace':
+        return lambda P: [P[1][t] - 0.5 * (P[0][t] + P[2][t]) - z[t] for t in range(len(z))]
+    if name == 'ArrayPriorInPlace':
+        return lambda P: [2.0 * (P[0][t] - z[t]) for t in range(len(z))]
+    return lambda P: [sum((P[0][t] + z[t] - P[1][t]) ** 2 for t in range(len(z)))]
+
+
+def handwritten_edges(seed, n):
+    """-> (edges checked, failures): numerical Jacobians of the hand-written edges above vs central differences (h = 1e-5) of the pure function
+    through the hand-written boxplus; every pose bitwise unchanged after calc_error() and after calc_jacobians()"""
+    rng = random.Random(seed)
+    fails, evals = [], 0
+    classes = {'RangeInPlace': (RangeInPlace, 2), 'MidpointInPlace': (MidpointInPlace, 3), 'ArrayPriorInPlace': (ArrayPriorInPlace, 1), 'CopyShiftInPlace': (CopyShiftInPlace, 2)}
+    for i in range(n):
+        name = rng.choice(sorted(classes))
+        cls, nvert = classes[name]
+        kind = rng.choice(X.KINDS)
+        pd = X.PDIM[kind]
+        starts = []
+        for k in range(nvert):
+            pos = [rng.uniform(-4, 4) + 6.0 * k for _ in range(pd)]
+            if kind == 'SE2':
+                pos = pos + [rng.uniform(-3, 3)]
+            elif kind == 'SE3':
+                q = [rng.gauss(0, 1) for _ in range(4)]
+                nn = math.sqrt(sum(x * x for x in q))
+                pos = pos + [x / nn for x in q]
+            starts.append([float(x) for x in np.asarray(corr_poses.make_pose(kind, pos))])
+        z = rng.uniform(0.5, 3.0) if name == 'RangeInPlace' else [rng.uniform(-1, 1) for _ in range(pd)]
+        vs = [Vertex(10 + k, corr_poses.make_pose(kind, starts[k])) for k in range(nvert)]
+        e = cls([v.id for v in vs], np.eye(1 if name in ('RangeInPlace', 'CopyShiftInPlace') else pd), z if name == 'RangeInPlace' else np.array(z), vs)
+        f = _positions_fn(name, z)
+        case = {'edge': name, 'kind': kind, 'poses': starts, 'estimate': z}
+        try:
+            before = [np.array(v.pose).tobytes() for v in vs]
+            err = [float(x) for x in np.asarray(e.calc_error()).reshape(-1)]
+            if [np.array(v.pose).tobytes() for v in vs] != before:
+                fails.append(dict(case, why='calc_error() of an edge that only computes on what the accessors return changed a vertex pose: %r'
+                                            % [[float(x) for x in np.asarray(v.pose)] for v in vs]))
+                continue
+            ref = f([s[:pd] for s in starts])
+            if max(abs(a - b) for a, b in zip(err, ref)) > 1e-9 * (1 + max(abs(x) for x in ref)):
+                fails.append(dict(case, why='error %r, the same expression on plain lists gives %r' % (err, ref)))
+                continue
+            Js = [np.asarray(J, dtype=np.float64) for J in e.calc_jacobians()]
+            evals += 1
+            if [np.array(v.pose).tobytes() for v in vs] != before:
+                fails.append(dict(case, why='calc_jacobians() left the poses changed: %r' % [[float(x) for x in np.asarray(v.pose)] for v in vs]))
+                continue
+            cd = X.CDIM[kind]
+            h = 1e-5
+            for k in range(nvert):
+                Jt = np.zeros((len(ref), cd))
+                for d in range(cd):
+                    dl = [0.0] * cd
+                    dl[d] = h
+                    Pp = [s[:pd] for s in starts]
+                    Pm = [s[:pd] for s in starts]
+                    Pp[k] = np_boxplus(kind, starts[k], dl)[:pd]
+                    Pm[k] = np_boxplus(kind, starts[k], [-x for x in dl])[:pd]
+                    Jt[:, d] = (np.array(f(Pp)) - np.array(f(Pm))) / (2 * h)
+                if Js[k].shape != Jt.shape or not np.abs(Js[k] - Jt).max() <= 1e-4 * (1.0 + np.abs(Jt).max()):
+                    fails.append(dict(case, vertex=k, why='numerical Jacobian w.r.t. vertex %d differs from the derivative by %g' %
+                                                           (k, float(np.abs(Js[k] - Jt).max()) if Js[k].shape == Jt.shape else float('nan')),
+                                      numeric=Js[k].tolist(), derivative=Jt.tolist()))
+                    break
+        except Exception as ex:  # noqa
+            fails.append(dict(case, why='raised %r' % (ex,)))
+    return evals, fails
